@@ -118,7 +118,7 @@ def documented_attributes(cls):
     return list(dict.fromkeys(names))
 
 
-out = {"classes": [], "registered": sorted(REG), "modules": {}}
+out = {"classes": [], "registered": sorted(REG), "modules": {}, "simulations": []}
 for cname in sorted(classes):
     cls = classes[cname]
     params, required = [], []
@@ -150,6 +150,58 @@ for cname in sorted(classes):
     out["classes"].append({"name": cname, "emitted_name": d["name"], "registered": REG.get(d["name"]) is cls, "protocol": proto_of(cls), "params": params, "required": required,
                            "tunables": tun, "emit_kwargs": sorted(d.get("kwargs", {})), "emit_attrs": sorted(d.get("attributes", {})),
                            "child_proto": dict(zip(keys, protos)), "module": cls.__module__})
+
+# ---- simulation classes (restart path: ASE's encoder calls todict())
+from ase import Atoms  # noqa: E402
+
+from quansino.mc.core import MonteCarlo  # noqa: E402
+from quansino.mc.driver import Driver  # noqa: E402
+
+SETTINGS = ["temperature", "pressure", "external_stress", "chemical_potential", "number_of_exchange_particles", "accessible_volume", "exchange_atoms",
+            "max_cycles", "seed", "rng_state", "step_count"]
+sims = {}
+for name, mod in mods.items():
+    for cname, cls in inspect.getmembers(mod, inspect.isclass):
+        if cls.__module__.startswith("quansino") and cls.__name__ == cname and issubclass(cls, Driver) and "restart_file" in {
+                p for k in cls.__mro__ if "__init__" in k.__dict__ for p in inspect.signature(k.__init__).parameters} and cname not in ("Driver", "SingleDriver", "MultiDriver"):
+            sims[cname] = cls
+out_sims = []
+for cname in sorted(sims):
+    cls = sims[cname]
+    accepted, required = set(), []
+    for k in cls.__mro__:
+        if "__init__" not in k.__dict__ or not k.__module__.startswith("quansino"):
+            continue
+        sig = inspect.signature(k.__init__)
+        for pn, par in list(sig.parameters.items())[1:]:
+            if par.kind in (par.VAR_KEYWORD, par.VAR_POSITIONAL):
+                continue
+            accepted.add(pn)
+            if par.default is inspect.Parameter.empty and k is cls and pn != "atoms":
+                required.append(pn)
+        if not any(par.kind == par.VAR_KEYWORD for par in sig.parameters.values()):
+            break
+    atoms = Atoms("Ar2", positions=[[0, 0, 0], [2, 0, 0]], cell=[5, 5, 5], pbc=True)
+    kw = {}
+    for pn in required:
+        kw[pn] = {"temperature": 300.0, "delta": 0.1, "min_delta": 0.05, "max_delta": 0.2}.get(pn)
+        if kw[pn] is None:
+            fail(f"translator: do not know how to fill required parameter {pn!r} of simulation class {cname}")
+    try:
+        sim = cls(atoms, logfile=None, **kw)
+    except Exception as e:  # noqa: BLE001
+        fail(f"translator: cannot construct {cname}: {e}")
+    has_todict = callable(getattr(sim, "todict", None))
+    has_from = callable(getattr(cls, "from_dict", None))
+    try:
+        d = sim.todict() if has_todict else {}
+    except Exception as e:  # noqa: BLE001
+        d = {}
+    emitted = set(d.get("kwargs", {})) | set(d.get("attributes", {})) | set(d.get("context", {})) | ({"rng_state"} if "rng_state" in d else set())
+    owned = [x for x in SETTINGS if x in ("seed", "rng_state", "step_count") or hasattr(sim, x) or x in accepted]
+    out_sims.append({"name": cname, "registered": REG.get(d.get("name", cname)) is cls, "has_todict": has_todict, "has_from_dict": has_from, "has_atoms": "atoms" in d,
+                     "required": required, "accepted": sorted(accepted), "emit_kwargs": sorted(d.get("kwargs", {})), "emitted": sorted(emitted), "settings": owned})
+out["simulations"] = out_sims
 
 # ---- module-level import statements (for the import-order model)
 for name, mod in mods.items():
